@@ -308,8 +308,9 @@ func judgeC11(rep *core.Report, c *CaseResult) {
 		}
 	}
 	// (4) directives and notation lines
-	for _, l := range strings.Split(string(c.Out), "\n") {
-		t := strings.TrimSpace(l)
+	// (COMMENT lines of the output: the same text inside a raw string literal is content)
+	for _, cm := range out.Comments {
+		t := strings.TrimSpace(cm.Text)
 		if constraint.IsGoBuild(t) || constraint.IsPlusBuild(t) {
 			if strings.Contains(t, "convergen") {
 				viol("build-constraint-left", nil, "output still carries "+t)
